@@ -119,6 +119,39 @@ def single(ctx, method, kind):
             ctx.prove(p.is_running() is False, "gone-stays-gone", detail="is_running()")
 
 
+@harness("C03.outside_denied", quick=[dict(method=m) for m in ("memory_maps", "open_files", "exe", "cwd", "as_dict")])
+def outside_denied(ctx, method):
+    """the refusal comes from OUTSIDE /proc/<pid>: a path the process's own records name (a mapping, a descriptor, the exe and cwd
+    links, each with the kernel's ' (deleted)' suffix) cannot be stat()ed by the caller (EACCES / EPERM on a directory above it).
+    Still a value or AccessDenied carrying the pid -- never a bare PermissionError; as_dict() puts ad_value"""
+    k = build(ctx)
+    en = ctx.choice("errno", [errno.EACCES, errno.EPERM])
+    paths = {"map": "/data/lib.so (deleted)", "fd": "/data/file (deleted)", "exe": "/usr/bin/cat (deleted)", "cwd": "/home/u (deleted)"}
+    refused = ctx.choice("refused", sorted(paths))
+    k.files[f"/proc/{P}/smaps"] = simk.SMAPS_TMPL.replace("/usr/bin/cat", paths["map"])
+    k.links[f"/proc/{P}/fd/3"] = paths["fd"]
+    k.links[f"/proc/{P}/exe"] = paths["exe"]
+    k.links[f"/proc/{P}/cwd"] = paths["cwd"]
+    for key, pth in paths.items():
+        k.stats[pth] = simk.oserr(en, pth) if key == refused else simk.oserr(errno.ENOENT, pth)
+        k.stats[pth[:-10]] = simk.StatResult(0o040755 if key == "cwd" else 0o100644)
+    AD = object()
+    with k.installed():
+        p = psutil.Process(P)
+        try:
+            r, exc = (p.as_dict(attrs=["memory_maps", "open_files", "exe", "cwd"], ad_value=AD) if method == "as_dict" else call(p, method)), None
+        except Exception as e:  # noqa: BLE001
+            r, exc = None, e
+    info = f"stat() of {paths[refused]!r} refused ({errno.errorcode[en]})"
+    if method == "as_dict":
+        ctx.prove(exc is None, "only-psutil-errors[deny]", detail=f"as_dict: {type(exc).__name__}: {exc} | {info}")
+        return
+    classify(ctx, exc, "deny", method, info)
+    touched = {"memory_maps": "map", "open_files": "fd", "exe": "exe", "cwd": "cwd"}[method]
+    if touched != refused:
+        ctx.prove(exc is None, "AD-only-if-denied", detail=f"{method}: {exc!r} | {info}")
+
+
 @harness("C03.stranger", quick=[dict(method=m, kind=kd) for m in ("children", "children_r", "parent", "parents") for kd in ("vanish", "deny", "deny_eperm")], timeout_ms=5000)
 def stranger(ctx, method, kind):
     """a process that is NOT a relative of the object (another child of init) vanishes or turns unreadable while the tree is walked, at
